@@ -12,6 +12,7 @@ import numpy as np
 
 from harness import core, gen_scheme
 from harness.gen_scheme import INF, _num
+from harness.props import _c08_fns as fns
 from harness.props import _c08_oracle as orc
 from harness.props import c02, c03
 
@@ -67,11 +68,30 @@ REQUIRED_THEOREMS = [
     "linked_constraint_affects_members_iff_aligned_inside",
     "linked_area_acts_on_aligned_axis",
     "linked_reported_clps_follow_aligned_decision",
+    # the functions as written in the source, translated on every run (Generated/C08Fns.lean) = the model
+    "generated_has_interval_eq_model",
+    "generated_interval_item_applies_eq_model",
+    "generated_applies_eq_model",
+    "generated_does_interval_item_apply_eq_model",
+    "generated_slice_eq_model",
+    "generated_slice_in_range",
+    "generated_get_area_eq_model",
+    "generated_apply_constraints_eq_model",
+    # items are re-read on every evaluation
+    "applies_reads_current_interval",
+    # unlinked groups with several datasets: every dataset's equal-area penalties once
+    "penalties_all_datasets_once",
 ]
+GEN_FILE = core.LEAN / "GlotaranModel" / "Generated" / "C08Fns.lean"
 TRUSTED = [
     "hand-written model lean/GlotaranModel/C08.lean (on top of C02.lean / C03.lean: applies, axisSlice, areaSlice, getArea, "
-    "apply_relations / apply_constraints / retrieve_clps, clp penalties, add_model_weight, number_of_clps), tied to the code "
-    "by differential execution only",
+    "apply_relations / apply_constraints / retrieve_clps, clp penalties, add_model_weight, number_of_clps); applies / has_interval "
+    "(with method dispatch), does_interval_item_apply, get_axis_slice_from_interval, _get_area and the loop body of apply_constraints "
+    "are additionally proved equal to definitions regenerated from the source text on every run (generated_*_eq_model); "
+    "add_model_weight, apply_relations, retrieve_clps, calculate_clp_penalties, number_of_clps are tied by differential execution only",
+    "the function-level translator harness/props/_c08_fns.py: the parameter types it gives to the translated functions, its table of "
+    "builtins, and the vocabulary lean/GlotaranModel/C08Py.lean (floats with infinities, the interval attribute as tuple-or-list, Python "
+    "ints / indexing / range / slice, np.abs(axis - v).argmin(), clp label tables); warnings.warn is dropped by the translation",
     "LAPACK / scipy.optimize.nnls numerics in the end-to-end stream (clps compared with the exact rational model and with an "
     "independent numpy reference at relative 1e-9; zeros and relation ratios compared exactly)",
     "scipy.optimize.least_squares with max_nfev=1 evaluates the model at the initial parameters",
@@ -101,6 +121,12 @@ RULE = (
     "own coordinate and its aligned coordinate (a bound strictly between them, on one of them, or a degenerate interval on one of "
     "them), so that the two coordinates disagree about membership; constraints, relations and penalties of a linked group are read on "
     "the ALIGNED coordinate of the shared clp, model weights on the dataset's own axes. "
+    "ITEMS ARE RE-READ: unit cases use an item (applies at x), assign a new interval (same object / deep copy made after the first use / "
+    "evolve copy as made by fill_item; tuple, list, None, half-infinite), and ask again — the answer must be that of the new interval, the "
+    "untouched original keeps the old one; end-to-end cases optimise a scheme, reassign the intervals of its constraints, relations, "
+    "penalties and weights on the SAME model object (85 % of the items, 35 % half-infinite) and optimise again — the second result is "
+    "compared with the model of the new scheme, with the oracle, and with the result of a model built fresh with the new intervals; "
+    "a directed end-to-end stream of unlinked groups with 2-3 datasets and at least one equal-area penalty. "
     "Each case is run on the real code, on the Lean model (exact equality of slices, "
     "truth values, collected indices, weight arrays, number_of_clps, warnings; clps/penalties at 1e-9; for linked groups the model's "
     "per-aligned-point decisions `linkDecisions`: every label the model removes at the aligned coordinate is exactly 0 / in exact ratio at "
@@ -110,6 +136,32 @@ RULE = (
 )
 RTOL = 1e-9
 PEN_RTOL = 1e-6   # additional_penalty sums nnls clps, which scipy delivers to ~1e-8 only
+
+
+def generate(ck):
+    """regenerate lean/GlotaranModel/Generated/C08Fns.lean (function-level translation of interval_item.py, clp_constraint.py,
+    matrix_provider.py, data_provider.py, estimation_provider.py) from the source text of VERIF_REPO.  Source outside the
+    translator's subset does not stop the check: the function is emitted as `Py.Untranslatable`, the `generated_*_eq_model`
+    theorems about it stop compiling and the verdict logic takes over (failing-input search, else no-failing-input-found)."""
+    import hashlib
+    results, texts = fns.translate_all(core.REPO)
+    text = fns.render(results)
+    GEN_FILE.parent.mkdir(parents=True, exist_ok=True)
+    if not GEN_FILE.exists() or GEN_FILE.read_text() != text:
+        GEN_FILE.write_text(text)
+    broken = {r.key: r.reason for r in results if isinstance(r, fns.Broken)}
+    if broken:
+        ck.extra["untranslatable"] = broken
+        for k, v in broken.items():
+            print(f"[{PROP}] translator: {k} is outside the translated subset ({v}); its generated_*_eq_model theorem will not compile")
+    return [{
+        "table": "function-level transcription (lean/GlotaranModel/Generated/C08Fns.lean)",
+        "source": fns.SOURCES,
+        "source_sha1": fns.source_sha1(texts),
+        "sha1": hashlib.sha1(text.encode()).hexdigest(),
+        "functions": [r.key for r in results if not isinstance(r, fns.Broken)],
+        "untranslatable": broken,
+    }]
 
 
 # =================================================================================================
@@ -182,6 +234,29 @@ def make_item(kind, ivs):
 def real_applies(kind, ivs, x):
     try:
         return {"value": bool(make_item(kind, ivs).applies(x))}
+    except Exception as e:  # noqa
+        return {"error": type(e).__name__}
+
+
+def real_reassign(kind, first, second, x, via):
+    """use an item, then assign `item.interval = second` (on the same object / on a deep copy made after the first use /
+    on an `evolve` copy as made by fill_item) and ask again: (answer before, answer after, answer of the untouched original)"""
+    import importlib
+    gi = importlib.import_module("glotaran.model.item")       # the module (the package exports the decorator under the same name)
+    try:
+        it = make_item(kind, first)
+        before = bool(it.applies(x))
+        if via == "same":
+            target = it
+        elif via == "deepcopy":
+            target = copy.deepcopy(it)
+        else:
+            target = gi.evolve(it)
+        target.interval = item_interval(second)
+        after = bool(target.applies(x))
+        again = bool(target.applies(x))
+        orig = bool(it.applies(x))
+        return {"before": before, "value": after, "again": again, "original": orig}
     except Exception as e:  # noqa
         return {"error": type(e).__name__}
 
@@ -277,6 +352,25 @@ def check_case(ck, case, batch, model=True):
         ck.count("applies:" + case["item"] + ":" + orc.interval_form(case["interval"]))
         lines = [f"applies {case['item']} {ivs_proto(case['interval'])} {core.rat(case['x'])}"]
         nt = case["interval"] is not None
+    elif kind == "reassign":
+        real = real_reassign(case["item"], case["first"], case["second"], case["x"], case["via"])
+        ck.oracle_evals += 1
+        # the statement, read on the interval the item carries NOW (and on the old one for the untouched original)
+        orc.applies_oracle(ck, {"item": case["item"], "interval": case["second"], "x": case["x"], "kind": "reassign",
+                                "first": case["first"], "via": case["via"]}, real)
+        if "error" not in real:
+            if real["again"] != real["value"]:
+                ck.violation("reassign-second-call-differs", "applies() answers differently on the second call after the assignment", {**case, "observed": real})
+            old = {"value": real["before"]}
+            orc.applies_oracle(ck, {"item": case["item"], "interval": case["first"], "x": case["x"], "kind": "reassign-before"}, old)
+            if case["via"] != "same" and real["original"] != real["before"]:
+                ck.violation("reassign-copy-changes-original", "assigning the interval of a copy changed the answer of the original item",
+                             {**case, "observed": real})
+        ck.count("reassign:" + case["via"])
+        ck.count("reassign-to:" + orc.interval_form(case["second"]))
+        lines = [f"applies {case['item']} {ivs_proto(case['first'])} {core.rat(case['x'])}",
+                 f"applies {case['item']} {ivs_proto(case['second'])} {core.rat(case['x'])}"]
+        nt = case["first"] != case["second"]
     elif kind == "does":
         real = real_does(case["item"], case["interval"], case["index"])
         ck.oracle_evals += 1
@@ -310,7 +404,7 @@ def check_case(ck, case, batch, model=True):
         items = core.lst(core.lst([core.strs(it["datasets"]), pair_proto(it.get("global_interval")),
                                    pair_proto(it.get("model_interval")), core.rat(it["value"])]) for it in case["items"])
         lines = [f"mweight {core.enc(case['label'])} {dsw} {core.rats(case['maxis'])} {core.rats(case['gaxis'])} {items}"]
-    elif kind == "e2e":
+    elif kind in ("e2e", "e2e-reassign"):
         return check_e2e(ck, case, batch, model)
     else:
         raise core.HarnessError(f"unknown case kind {kind!r}")
@@ -343,6 +437,12 @@ def judge_unit(ck, b, ans):
         m = ans[0] == "T"
         if "error" in real or real["value"] != m:
             dis(f"applies: {real} vs model {m}", m)
+    elif kind == "reassign":
+        m = [a == "T" for a in ans]
+        if "error" in real:
+            dis(f"reassigning the interval raised {real['error']}", m)
+        elif [real["before"], real["value"]] != m or (case["via"] != "same" and real["original"] != m[0]):
+            dis(f"item used, interval reassigned ({case['via']}): answers {real} vs model (before, after) {m} — the item is not re-read", m)
     elif kind == "does":
         t = core.parse_tree(ans[0])[0]
         m = {"value": t[0] == "T", "warned": t[1] == "T"}
@@ -370,11 +470,42 @@ def judge_unit(ck, b, ans):
 # =================================================================================================
 # end to end
 # =================================================================================================
-def run_real_e2e(spec):
+def reassign_items(model, spec):
+    """`item.interval = ...` (and the interval attributes of penalties / weights) on the items of a model object that has
+    been used already, to the intervals of `spec` (same items, same order)"""
+    for it, c in zip(model.clp_constraints, spec.get("constraints", [])):
+        it.interval = item_interval(c.get("interval"))
+    for it, r in zip(model.clp_relations, spec.get("relations", [])):
+        it.interval = item_interval(r.get("interval"))
+    for it, q in zip(model.clp_penalties, spec.get("penalties", [])):
+        it.source_intervals = item_interval(q["source_intervals"])
+        it.target_intervals = item_interval(q["target_intervals"])
+    for it, w in zip(model.weights, spec.get("weights", [])):
+        it.global_interval = item_interval(w.get("global_interval"))
+        it.model_interval = item_interval(w.get("model_interval"))
+
+
+def run_real_e2e(spec, first=None):
+    """optimize(scheme of spec); with `first`: build the scheme of `first`, optimise it, reassign the intervals of its items
+    to those of `spec` on the SAME model object and optimise again — the second result is returned"""
     from glotaran.optimization import matrix_provider as mp
     from glotaran.optimization.optimize import optimize
-    scheme, model, parameters, data = gen_scheme.build(spec)
     out = {"error": None, "warnings": []}
+    if first is None:
+        scheme, model, parameters, data = gen_scheme.build(spec)
+    else:
+        scheme, model, parameters, data = gen_scheme.build(first)
+        try:
+            with warnings.catch_warnings():
+                warnings.simplefilter("ignore")
+                optimize(scheme, verbose=False, raise_exception=True)
+        except ZeroDivisionError:
+            out["error"] = "dof-zero"
+            return out
+        except Exception as e:  # noqa
+            out["error"] = type(e).__name__ + ":(first run) " + str(e)[:120]
+            return out
+        reassign_items(model, spec)
     providers = []
     orig_init = mp.MatrixProviderLinked.__init__
 
@@ -436,9 +567,43 @@ def e2e_lines(spec):
     return lines + ["linkdec", "weights", "results", "parts", "nclps", "penwarn"], n_desc
 
 
+def same_results(spec, a, b):
+    """are two Results of the same scheme identical in what C08 observes (clp, weight, additional_penalty)"""
+    for ds in spec["datasets"]:
+        ra, rb = a.data[ds["label"]], b.data[ds["label"]]
+        if ("weight" in ra) != ("weight" in rb):
+            return f"weight of {ds['label']!r} present in one result only"
+        if "weight" in ra and not np.array_equal(c03.arr(ra.weight, "model", "global"), c03.arr(rb.weight, "model", "global")):
+            return f"weight of {ds['label']!r}"
+        if tuple(ra.clp.dims) != tuple(rb.clp.dims):
+            return f"clp dimensions of {ds['label']!r}"
+        ca, cb = np.asarray(ra.clp.values, dtype=float), np.asarray(rb.clp.values, dtype=float)
+        if ca.shape != cb.shape or not np.allclose(ca, cb, rtol=RTOL, atol=1e-12) or not np.array_equal(ca == 0, cb == 0):
+            return f"clp of {ds['label']!r}"
+    pa = [np.asarray(x).ravel().tolist() for x in (a.additional_penalty or [])]
+    pb = [np.asarray(x).ravel().tolist() for x in (b.additional_penalty or [])]
+    if len(pa) != len(pb) or any(not pen_close(u, v) for u, v in zip(pa, pb)):
+        return "additional_penalty"
+    if int(a.number_of_clps) != int(b.number_of_clps):
+        return "number_of_clps"
+    return None
+
+
 def check_e2e(ck, case, batch, model=True):
     spec = case["spec"]
-    real = run_real_e2e(spec)
+    real = run_real_e2e(spec, case.get("first"))
+    if case.get("first") is not None:
+        ck.count("e2e-reassign:" + ("linked" if any(gen_scheme.resolve_linked(spec, g) for g in spec["groups"]) else "unlinked"))
+        if not real["error"]:
+            # independent of the model: a used model object whose intervals were reassigned behaves like a model built
+            # with the new intervals
+            fresh = run_real_e2e(spec)
+            if not fresh["error"]:
+                diff = same_results(spec, real["result"], fresh["result"])
+                if diff is not None:
+                    ck.violation("reassigned-interval-not-reread",
+                                 f"optimise, reassign the intervals of the items on the same model object, optimise again: {diff} "
+                                 "differs from the result of a model built with the new intervals", case)
     for t in c02.classify(spec):
         ck.count("e2e:" + t)
     for t in orc.classify_spec(spec):
@@ -625,7 +790,7 @@ def flush(ck, batch):
         n = len(b["lines"])
         ans = answers[pos:pos + n]
         pos += n
-        if b["case"]["kind"] == "e2e":
+        if b["case"]["kind"] in ("e2e", "e2e-reassign"):
             judge_e2e(ck, b, ans)
         else:
             judge_unit(ck, b, ans)
@@ -766,13 +931,16 @@ def separating_interval(rng, x, v):
     ])
 
 
-def e2e_spec(rng):
+def e2e_spec(rng, force_extra=None):
     """a C02-space scheme without items + interval items built from the bound candidates of its axes"""
     tol = rng.choice([0.0, 0.0, 0.25, 0.5, 0.5, 1.0])
     force = {"tol": tol, "link_clp": rng.choice([True, True, False, False, None])}
     if tol > 0 and rng.random() < 0.6:
         # the tolerance only matters for linked groups of several datasets
         force.update({"link_clp": True, "n_datasets": rng.choice([2, 2, 3, 3, 4])})
+    if force_extra:
+        force.update(force_extra)
+        tol = force["tol"]
     pool = rng.choice(DATASET_LABEL_POOLS)
     spec = gen_scheme.rand_spec(rng, allow_full=rng.random() < 0.15, allow_items=False, force=force, dataset_labels=pool)
     if c03.group_label_collision(spec):
@@ -869,6 +1037,106 @@ def e2e_spec(rng):
     return spec
 
 
+def reassigned_spec(rng, spec):
+    """the same scheme with new intervals on (most of) its interval-carrying items — half-infinite ones included"""
+    new = copy.deepcopy(spec)
+    gpts = sorted({x for ds in new["datasets"] for x in ds["global_axis"]})
+    gc = bound_candidates(gpts)
+
+    def fresh_iv():
+        r = rng.random()
+        if r < 0.35:
+            b = rng.choice([v for v in gc if abs(v) != INF])
+            return rng.choice([[J(b), "inf"], ["-inf", J(b)], ["inf", J(b)]])
+        return rand_iv(rng, gc)
+
+    def fresh_ivs(allow_none):
+        r = rng.random()
+        if allow_none and r < 0.1:
+            return None
+        if r < 0.7:
+            return fresh_iv()
+        return [fresh_iv() for _ in range(rng.randint(1, 3))]
+
+    for c in new.get("constraints", []):
+        if rng.random() < 0.85:
+            c["interval"] = fresh_ivs(c["type"] == "zero")
+    for r in new.get("relations", []):
+        if rng.random() < 0.85:
+            r["interval"] = fresh_ivs(True)
+    for q in new.get("penalties", []):
+        if rng.random() < 0.85:
+            q["source_intervals"] = [fresh_iv() for _ in range(rng.randint(1, 2))]
+        if rng.random() < 0.85:
+            q["target_intervals"] = [fresh_iv() for _ in range(rng.randint(1, 2))]
+    for w in new.get("weights", []):
+        if rng.random() < 0.85:
+            w["global_interval"] = fresh_iv() if rng.random() < 0.85 else None
+    return new
+
+
+def e2e_reassign_stream(ck, batch, n, model=True):
+    """optimise -> reassign intervals -> optimise again on the same model object (linked and unlinked groups)"""
+    gen_scheme.model_class()
+    done = 0
+    for _ in range(20 * n):
+        if done >= n:
+            break
+        spec = e2e_spec(ck.rng)
+        if not any(spec.get(k) for k in ("constraints", "relations", "penalties", "weights")):
+            continue
+        if tied_pairs(spec):
+            continue            # a relation and a constraint on one clp keep their disjoint intervals
+        spec2 = reassigned_spec(ck.rng, spec)
+        check_case(ck, {"kind": "e2e-reassign", "spec": spec2, "first": spec}, batch, model)
+        done += 1
+        if done <= 1:
+            ck.sample({"kind": "e2e-reassign", "first-intervals": [c.get("interval") for c in spec["constraints"] + spec["relations"]],
+                       "second-intervals": [c.get("interval") for c in spec2["constraints"] + spec2["relations"]]})
+        if len(batch) >= 40:
+            flush(ck, batch)
+        if not model and ck.violations:
+            break
+    flush(ck, batch)
+
+
+def multi_dataset_penalty_stream(ck, batch, n, model=True):
+    """unlinked groups with >= 2 datasets and equal-area penalties: each dataset's penalty once in additional_penalty"""
+    rng = ck.rng
+    done = 0
+    for _ in range(30 * n):
+        if done >= n:
+            break
+        spec = e2e_spec(rng, force_extra={"link_clp": False, "n_datasets": rng.choice([2, 2, 3]), "tol": 0.0})
+        unl = [g for g in orc.group_order(spec) if not gen_scheme.resolve_linked(spec, g)
+               and sum(1 for d in spec["datasets"] if d["group"] == g and not d.get("gmcs")) >= 2]
+        if not unl:
+            continue
+        labels = sorted({l for ds in spec["datasets"] for mc in ds["mcs"] for l in mc["labels"]})
+        if len(labels) < 2:
+            continue
+        if not spec["penalties"]:
+            gpts = sorted({x for ds in spec["datasets"] for x in ds["global_axis"]})
+            gc = bound_candidates(gpts)
+            s_, t_ = rng.sample(labels, 2)
+            label = f"p.{len(spec['parameters']) + 1}"
+            spec["parameters"][label] = rng.choice([1.0, 2.0, 0.5])
+            spec["penalties"].append({"source": s_, "source_intervals": [rand_iv(rng, gc)], "target": t_,
+                                      "target_intervals": [rand_iv(rng, gc)], "parameter": label, "weight": rng.choice([1.0, 2.0, 4.0])})
+        ck.count("e2e-penalty:unlinked-group-with-several-datasets")
+        check_case(ck, {"kind": "e2e", "spec": spec}, batch, model)
+        done += 1
+        if len(batch) >= 40:
+            flush(ck, batch)
+        if not model and ck.violations:
+            break
+    flush(ck, batch)
+
+
+def tied_pairs(spec):
+    return {l for r in spec.get("relations", []) for l in (r["source"], r["target"])} & {c["target"] for c in spec.get("constraints", [])}
+
+
 # =================================================================================================
 # streams
 # =================================================================================================
@@ -933,6 +1201,18 @@ def unit_streams(ck, batch, model=True, scale=1.0):
         x = rng.choice([v for v in c if abs(v) != INF])
         check_case(ck, {"kind": "applies", "item": rng.choice(["zero", "only", "relation"]), "interval": ivs, "x": x}, batch, model)
     flush(ck, batch)
+    # --- items are re-read: use an item, assign a new interval (same object / deep copy / evolve copy as in fill_item), use it again
+    for _ in range(int(ck.n(2500, 30000) * scale)):
+        axis = rand_axis(rng)
+        c = bound_candidates(axis)
+        xs = [v for v in c if abs(v) != INF]
+        first, second = rand_ivs(rng, c), rand_ivs(rng, c)
+        if rng.random() < 0.3:
+            b = rng.choice(xs)
+            second = rng.choice([[J(b), "inf"], ["-inf", J(b)], ["inf", J(b)]])
+        check_case(ck, {"kind": "reassign", "item": rng.choice(["zero", "only", "relation"]), "first": first, "second": second,
+                        "x": rng.choice(xs), "via": rng.choice(["same", "same", "deepcopy", "evolve"])}, batch, model)
+    flush(ck, batch)
     # --- areas
     for axis in small:
         full = [True] * len(axis)
@@ -985,6 +1265,8 @@ def run(ck):
     unit_streams(ck, batch)
     ck.sample(rand_weight_case(ck.rng))
     e2e_stream(ck, batch, ck.n(140, 2500))
+    e2e_reassign_stream(ck, batch, ck.n(40, 800))
+    multi_dataset_penalty_stream(ck, batch, ck.n(25, 400))
     c = ck.counters
     ck.extra["link_member_vs_aligned"] = {
         "member points of linked groups": c.get("link:member-points", 0),
@@ -1006,6 +1288,10 @@ def search(ck):
     unit_streams(ck, batch, model=False, scale=2.0)
     if not ck.violations:
         e2e_stream(ck, batch, ck.n(120, 1500), model=False)
+    if not ck.violations:
+        e2e_reassign_stream(ck, batch, ck.n(60, 600), model=False)
+    if not ck.violations:
+        multi_dataset_penalty_stream(ck, batch, ck.n(40, 400), model=False)
 
 
 def replay(ck, case):
